@@ -202,7 +202,14 @@ sys.exit(0)
 OPTIONS_REPLAY = "import runpy, sys\nsys.argv = ['c13_native']\nrunpy.run_path('/verif/replay_lib/c13_native.py', run_name='__main__')\n"
 
 
+LOOP_PROTOCOL_REPLAY = "import runpy, sys\nsys.argv = ['c13_loops']\nrunpy.run_path('/verif/replay_lib/c13_loops.py', run_name='__main__')\n"
+
+
 def replay(ob):
+    if "loop.protocol." in ob["name"]:
+        return LOOP_PROTOCOL_REPLAY
+    if "function.values_and_attribute" in ob["name"]:
+        return LOOP_PROTOCOL_REPLAY.replace("c13_loops", "c13_function")
     if "graph_text." in ob["name"] or "initializer.assigned_under" in ob["name"]:
         return OPTIONS_REPLAY
     if "attribute_text.evaluates" in ob["name"]:
